@@ -38,6 +38,26 @@ impl Compared {
     }
 }
 
+/// The implementation under test: the derive-built S1 or a dynamic schema.
+pub enum Target<'a> {
+    Static(&'a s1::S1),
+    Dynamic(&'a async_graphql::dynamic::Schema),
+}
+impl<'a> Target<'a> {
+    fn run(&self, text: &str, vars: &Map<String, J>, wd: s1::W) -> Result<async_graphql::Response, String> {
+        match self {
+            Target::Static(s) => crate::run_s1(s, text, None, vars, wd),
+            Target::Dynamic(s) => crate::dynamic::run_dynamic(s, text, None, vars, wd),
+        }
+    }
+    fn run_stream(&self, text: &str, vars: &Map<String, J>, wd: s1::W) -> Result<Vec<async_graphql::Response>, String> {
+        match self {
+            Target::Static(s) => crate::run_s1_stream(s, text, None, vars, wd),
+            Target::Dynamic(s) => crate::dynamic::run_dynamic_stream(s, text, vars, wd),
+        }
+    }
+}
+
 pub enum CaseOutcome {
     NotDoc,
     Invalid,
@@ -50,13 +70,13 @@ pub type WorldFilter<'a> = &'a (dyn Fn(&[Seg], &Type, bool, &Ans) -> bool + Sync
 
 /// Generate (from `ch`) a document, keep it if the reference validator accepts it,
 /// run the reference executor with a lazily chosen world, then the real schema on the same world.
-pub fn run_static(refs: &Schema, schema: &s1::S1, gcfg: &GenCfg, ch: &mut Chooser, menu: MenuCfg, world_class: Class, filter: Option<WorldFilter>) -> CaseOutcome {
-    run_static2(refs, schema, gcfg, ch, menu, world_class, None, filter)
+pub fn run_static(refs: &Schema, target: &Target, gcfg: &GenCfg, ch: &mut Chooser, menu: MenuCfg, world_class: Class, filter: Option<WorldFilter>) -> CaseOutcome {
+    run_static2(refs, target, gcfg, ch, menu, world_class, None, filter)
 }
 
 /// As `run_static`, with a separate deviation class for fault answers.
 #[allow(clippy::too_many_arguments)]
-pub fn run_static2(refs: &Schema, schema: &s1::S1, gcfg: &GenCfg, ch: &mut Chooser, menu: MenuCfg, world_class: Class, fault_class: Option<Class>, filter: Option<WorldFilter>) -> CaseOutcome {
+pub fn run_static2(refs: &Schema, target: &Target, gcfg: &GenCfg, ch: &mut Chooser, menu: MenuCfg, world_class: Class, fault_class: Option<Class>, filter: Option<WorldFilter>) -> CaseOutcome {
     let Some(gd) = gen_doc(gcfg, ch) else { return CaseOutcome::NotDoc };
     let text = agv_refgql::print::exec_doc(&gd.doc);
     let doc = match agv_refgql::parse::parse_exec(&text) {
@@ -69,12 +89,12 @@ pub fn run_static2(refs: &Schema, schema: &s1::S1, gcfg: &GenCfg, ch: &mut Choos
     let mut world = ChooserWorld { s: refs, ch, cfg: menu, class: world_class, fault_class, table: Default::default(), asked: 0, filter };
     let reference = execute(refs, &doc, None, &gd.variables, &mut world);
     let table = world.table;
-    run_fixed(refs, schema, text, doc, gd.variables, table, gd.features, Some(reference))
+    run_fixed(refs, target, text, doc, gd.variables, table, gd.features, Some(reference))
 }
 
 /// Run a fully specified case (used by `run_static` and by replay).
 #[allow(clippy::too_many_arguments)]
-pub fn run_fixed(refs: &Schema, schema: &s1::S1, text: String, doc: ExecDoc, vars: Map<String, J>, table: BTreeMap<String, Ans>, features: Vec<&'static str>, reference: Option<ExecResult>) -> CaseOutcome {
+pub fn run_fixed(refs: &Schema, target: &Target, text: String, doc: ExecDoc, vars: Map<String, J>, table: BTreeMap<String, Ans>, features: Vec<&'static str>, reference: Option<ExecResult>) -> CaseOutcome {
     let reference = reference.unwrap_or_else(|| {
         let w = agv_refgql::exec::TableWorld { table: table.clone() };
         execute(refs, &doc, None, &vars, &mut agv_refgql::exec::TableWorldRef { s: refs, w: &w })
@@ -88,7 +108,7 @@ pub fn run_fixed(refs: &Schema, schema: &s1::S1, text: String, doc: ExecDoc, var
     let wd = Arc::new(wdv);
     let panic_case = |vars: &Map<String, J>| json!({"query": text, "variables": J::Object(vars.clone()), "world": table_json(&table)});
     let (resp, more) = if is_sub {
-        match agv_engine::catch_quiet(|| crate::run_s1_stream(schema, &text, None, &vars, wd.clone())) {
+        match agv_engine::catch_quiet(|| target.run_stream(&text, &vars, wd.clone())) {
             Ok(Ok(mut rs)) => {
                 if rs.is_empty() {
                     return CaseOutcome::Machinery(format!("subscription stream produced no response: {text}"));
@@ -100,7 +120,7 @@ pub fn run_fixed(refs: &Schema, schema: &s1::S1, text: String, doc: ExecDoc, var
             Err(p) => return CaseOutcome::Panic { msg: p, case: panic_case(&vars) },
         }
     } else {
-        match agv_engine::catch_quiet(|| crate::run_s1(schema, &text, None, &vars, wd.clone())) {
+        match agv_engine::catch_quiet(|| target.run(&text, &vars, wd.clone())) {
             Ok(Ok(r)) => (r, vec![]),
             Ok(Err(e)) => return CaseOutcome::Machinery(format!("{e}: {text}")),
             Err(p) => return CaseOutcome::Panic { msg: p, case: panic_case(&vars) },
@@ -112,12 +132,12 @@ pub fn run_fixed(refs: &Schema, schema: &s1::S1, text: String, doc: ExecDoc, var
 }
 
 /// Replay helper: rebuild a case from the JSON stored in a violation.
-pub fn replay_fixed(refs: &Schema, schema: &s1::S1, case: &J) -> CaseOutcome {
+pub fn replay_fixed(refs: &Schema, target: &Target, case: &J) -> CaseOutcome {
     let text = case["query"].as_str().unwrap_or("").to_string();
     let vars = case["variables"].as_object().cloned().unwrap_or_default();
     let table = crate::glue::table_from_json(&case["world"]);
     match agv_refgql::parse::parse_exec(&text) {
-        Ok(doc) => run_fixed(refs, schema, text, doc, vars, table, vec![], None),
+        Ok(doc) => run_fixed(refs, target, text, doc, vars, table, vec![], None),
         Err(e) => CaseOutcome::Machinery(format!("replay: document does not parse: {}", e.msg)),
     }
 }
@@ -164,4 +184,78 @@ pub fn first_diff(exp: &J, got: &J, path: &str) -> Option<String> {
         (_, J::Null) => Some(format!("unexpected-null at {path}")),
         _ => Some(format!("value-differs at {path}")),
     }
+}
+
+/// (line, col) of every field node in the document whose response key is `key`.
+pub fn key_positions(doc: &ExecDoc, key: &str) -> Vec<(u32, u32)> {
+    use agv_refgql::ast::{ExecDef, Selection};
+    fn walk(sel: &[Selection], key: &str, out: &mut Vec<(u32, u32)>) {
+        for s in sel {
+            match s {
+                Selection::Field(f) => {
+                    if f.key() == key {
+                        out.push((f.pos.line, f.pos.col));
+                    }
+                    walk(&f.sel, key, out);
+                }
+                Selection::Inline(i) => walk(&i.sel, key, out),
+                Selection::Spread(_) => {}
+            }
+        }
+    }
+    let mut out = Vec::new();
+    for d in &doc.defs {
+        match d {
+            ExecDef::Op(o) => walk(&o.sel, key, &mut out),
+            ExecDef::Frag(f) => walk(&f.sel, key, &mut out),
+        }
+    }
+    out
+}
+
+/// The library resolves a response key once per field node that carries it (the C04
+/// finding "merged-key-resolved-n-times"); a failing such field is then reported once per
+/// node. Recognise exactly that shape: surplus reports that repeat an already reported
+/// path, each with the location of another node of the same key. Returns the error paths
+/// with those repeats removed, and how many were removed.
+pub fn strip_repeated_key_duplicates(doc: &ExecDoc, obs: &Obs) -> (Vec<agv_refgql::exec::Path>, usize) {
+    use agv_refgql::ast::Selection;
+    // how many times a field node with this key is reached when every spread is expanded
+    // every time it occurs (the library does not keep the spec's visitedFragments set either)
+    fn occurrences(doc: &ExecDoc, sel: &[Selection], key: &str, depth: usize) -> usize {
+        if depth > 8 {
+            return 0;
+        }
+        let mut n = 0;
+        for s in sel {
+            match s {
+                Selection::Field(f) => {
+                    if f.key() == key {
+                        n += 1;
+                    }
+                    n += occurrences(doc, &f.sel, key, depth + 1);
+                }
+                Selection::Inline(i) => n += occurrences(doc, &i.sel, key, depth + 1),
+                Selection::Spread(sp) => {
+                    if let Some(fr) = doc.frag(&sp.name.s) {
+                        n += occurrences(doc, &fr.sel, key, depth + 1);
+                    }
+                }
+            }
+        }
+        n
+    }
+    let mut kept: Vec<agv_refgql::exec::Path> = Vec::new();
+    let mut dups = 0usize;
+    for e in &obs.errors {
+        let key = e.path.iter().rev().find_map(|s| if let Seg::Key(k) = s { Some(k.clone()) } else { None }).unwrap_or_default();
+        let nodes: usize = doc.ops().map(|o| occurrences(doc, &o.sel, &key, 0)).sum();
+        let same = obs.errors.iter().filter(|x| x.path == e.path).count();
+        if kept.contains(&e.path) && nodes > 1 && same <= nodes {
+            dups += 1;
+            continue;
+        }
+        kept.push(e.path.clone());
+    }
+    (kept, dups)
 }
